@@ -161,8 +161,19 @@ var c01Statuses = []pod_status.PodStatus{pod_status.Running, pod_status.Releasin
 // BOUND: 1 node; 0..2 existing pods; 1 new task (quick) / 2 new tasks in sequence (thorough); one symbolic dimension (milli-cpu in [10, 2^30), whole GPUs < 2^10, pod slots < 2^10 with regular pods, pod slots with best-effort pods); at most one Bind fault
 // ASSUME: pre-state reachable: idle >= 0 and idle + releasing >= 0 in the symbolic dimension
 func VerifC01_AllocateCommit() {
-	nExisting := vr.Choose("existing", 3)
-	nNew := vr.Bound("newTasks", 1, 2)
+	c01AllocateCommit(vr.Choose("existing", 3), vr.Bound("newTasks", 1, 2))
+}
+
+// VerifC01_CommitWithFailingBind: two new tasks are placed in one statement and committed; the Bind
+// of either may fail. Whatever Bind calls the cluster accepted keep their capacity: the scheduler's
+// idle view of the node never exceeds what is truly free.
+// BOUND: 1 node; 0..1 existing pods; 2 new tasks in one statement; one symbolic dimension; at most one Bind fault
+// ASSUME: pre-state reachable: idle >= 0 and idle + releasing >= 0 in the symbolic dimension
+func VerifC01_CommitWithFailingBind() {
+	c01AllocateCommit(vr.Choose("existing", 2), 2)
+}
+
+func c01AllocateCommit(nExisting, nNew int) {
 	w := c01Build(nExisting, c01Statuses, nNew)
 	stmt := w.ssn.Statement()
 	idle0, used0, rel0 := w.get(w.node.Idle), w.get(w.node.Used), w.get(w.node.Releasing)
@@ -210,6 +221,28 @@ func VerifC01_AllocateCommit() {
 				}
 			}
 		}
+	}
+	// (b) pods whose Bind the cluster accepted occupy the node whatever the scheduler did afterwards
+	// (e.g. on the failure path of a later Bind in the same statement): the idle capacity the
+	// scheduler goes on to use never exceeds what is truly free
+	truth := 0.0
+	for i, t := range w.tasks {
+		if i < nExisting {
+			if t.NodeName == "n1" && t.Status != pod_status.Pipelined {
+				truth += w.reqs[t.UID]
+			}
+			continue
+		}
+		for _, b := range w.cache.binds {
+			if string(t.UID) == b {
+				truth += w.reqs[t.UID]
+			}
+		}
+	}
+	if w.bestEffort {
+		vr.Assert(w.get(w.node.Idle) <= w.alloc-truth, "C01.idle-view-within-truly-free-capacity#best-effort-pod-slot")
+	} else {
+		vr.Assert(w.get(w.node.Idle) <= w.alloc-truth, "C01.idle-view-within-truly-free-capacity")
 	}
 	// (c) a failed bind leaves no trace of the failed pod on the node
 	if err != nil && placed == 1 {
